@@ -2207,6 +2207,7 @@ class Mailbox:
         fetch_ops: list[FetchAtt],
         uid_cmd: bool = False,
         timeout_cm: asyncio.Timeout | None = None,
+        read_only: bool = False,
     ) -> AsyncIterator[tuple[int, list[bytes]]]:
         """
         Go through the messages in the mailbox. For the messages that are
@@ -2233,6 +2234,8 @@ class Mailbox:
         - `fetch_ops`: The things to fetch for the messags indiated in
           msg_set
         - `uid_cmd`: whether or not this is a UID command.
+        - `read_only`: the mailbox was opened with EXAMINE: the fetch does not
+          change any flags (nothing becomes seen, recent stays recent.)
         """
 
         if not self.msg_keys:
@@ -2364,7 +2367,9 @@ class Mailbox:
             #       imap command was executing on the message at least for the
             #       unseen sequence.
             #
-            if no_longer_unseen_msgs or no_longer_recent_msgs:
+            if (
+                no_longer_unseen_msgs or no_longer_recent_msgs
+            ) and not read_only:
                 notifies_for = no_longer_unseen_msgs | no_longer_recent_msgs
                 async with self.mh_sequences_lock:
                     seqs = self.get_sequences_from_folder()
